@@ -517,6 +517,8 @@ Section SendProofs.
     intros Hst Hv Hhs Hlo Hbl Hrg Hfu. unfold apply_sanitize.
     destruct (r0_sanitize r) as [rg|].
     2:{ exists r. split; [reflexivity|]. split; [|assumption]. repeat split; assumption || lia. }
+    destruct (r0_status r =? 304).
+    { exists r. split; [reflexivity|]. split; [|assumption]. repeat split; assumption || lia. }
     destruct (apply_range true rg (r0_status r) (r0_body r)) as [x|e|] eqn:E.
     - eexists. split; [reflexivity|]. cbn [r0_future]. split; [|assumption].
       destruct (apply_range_ok _ _ _ _ E) as [(-> & Es & Ecr & Eb) | (s & e & -> & Hs & Es & Ear & cr & Ecr & Hcr)].
